@@ -21,13 +21,15 @@ import (
 	"time"
 	"unicode/utf8"
 
+	. "verifharness/lib"
+
 	"github.com/ansible/receptor/pkg/certificates"
 	"github.com/ansible/receptor/pkg/logger"
 	"github.com/ansible/receptor/pkg/netceptor"
 	"github.com/ansible/receptor/pkg/utils"
 )
 
-func init() { props["C20"] = runC20 }
+func main() { Main("C20", runC20, nil) }
 
 func genUTF8(r *Rng, n int) string {
 	// a valid UTF-8 string of exactly n bytes, mixing 1..4-byte runes
@@ -327,8 +329,8 @@ func runC20(c *Ctx) {
 		c20DecodeCase(im, cf, w, "mutated")
 	}
 	c20EndToEnd(c, im)
-	must(cf.Write())
-	must(im.Write(c.Out))
+	Must(cf.Write())
+	Must(im.Write(c.Out))
 }
 
 // ---------- end to end through the built-in CA tooling ----------
@@ -351,24 +353,24 @@ func (m *memOS) WriteFile(name string, data []byte, _ os.FileMode) error {
 func c20EndToEnd(c *Ctx, im *Impl) {
 	r := c.Rng
 	tmp, err := os.MkdirTemp("", "vh-c20-")
-	must(err)
+	Must(err)
 	defer os.RemoveAll(tmp)
 	osw := &certificates.OsWrapper{}
 	caCrt, caKey := filepath.Join(tmp, "ca.crt"), filepath.Join(tmp, "ca.key")
-	must(certificates.InitCA(&certificates.CertOptions{CommonName: "verif CA", Bits: 2048}, caCrt, caKey, osw))
+	Must(certificates.InitCA(&certificates.CertOptions{CommonName: "verif CA", Bits: 2048}, caCrt, caKey, osw))
 	caCert, err := certificates.LoadCertificate(caCrt, osw)
-	must(err)
+	Must(err)
 	pool := x509.NewCertPool()
 	pool.AddCert(caCert)
 	// a second, unrelated CA: its certificates must not verify
 	otherCA, err := certificates.CreateCA(&certificates.CertOptions{CommonName: "other CA", Bits: 2048}, &certificates.RsaWrapper{})
-	must(err)
+	Must(err)
 	// one reused key ("pre-existing key" path)
 	keyFile := filepath.Join(tmp, "reuse.key")
 	{
 		_, key, err := certificates.CreateCertReqWithKey(&certificates.CertOptions{CommonName: "k", Bits: 2048})
-		must(err)
-		must(certificates.SaveToPEMFile(keyFile, []interface{}{key}, osw))
+		Must(err)
+		Must(certificates.SaveToPEMFile(keyFile, []interface{}{key}, osw))
 	}
 	n := 24
 	if c.Thorough() {
@@ -428,7 +430,7 @@ func c20EndToEnd(c *Ctx, im *Impl) {
 			continue
 		}
 		cert, err := certificates.LoadCertificate(crtFile, osw)
-		must(err)
+		Must(err)
 		// names in the certificate
 		got, err := utils.ReceptorNames(cert.Extensions)
 		if err != nil || !sameStrings(got, ids) {
@@ -496,9 +498,9 @@ func c20EndToEnd(c *Ctx, im *Impl) {
 			return
 		}
 		req, err := certificates.CreateCertReq(&certificates.CertOptions{CommonName: "cn", CertNames: certificates.CertNames{NodeIDs: ids}}, key)
-		must(err)
+		Must(err)
 		cert, err := certificates.SignCertReq(req, otherCA, &certificates.CertOptions{})
-		must(err)
+		Must(err)
 		f := netceptor.ReceptorVerifyFunc(&tls.Config{RootCAs: pool}, nil, "node-a", netceptor.ExpectedHostnameTypeReceptor, netceptor.VerifyServer, lg)
 		im.Count("e2e other-ca", true)
 		if f([][]byte{cert.Raw}, nil) == nil {
